@@ -41,6 +41,18 @@ func genField(rng *rand.Rand, allowSpace bool) string {
 	if s[0] == '#' {
 		s = "x" + s[1:]
 	}
+	if rng.Intn(10) == 0 { // text beyond ASCII, in particular runes whose last UTF-8 byte is 0x85 or 0xA0 (white space if read alone)
+		u := []string{"à", "Å", "é", "Р", "日", "Š", "ł", "…", "𝄞", "ā"}[rng.Intn(10)]
+		switch rng.Intn(3) {
+		case 0:
+			s += u
+		case 1:
+			s = u + s
+		default:
+			p := rng.Intn(len(s) + 1)
+			s = s[:p] + u + s[p:]
+		}
+	}
 	return s
 }
 
